@@ -7,7 +7,7 @@ from ..astq import U, call_name, calls, cmp_norm, const_names, fn_walk, self_att
 from ..cfg import CFG
 from ..interp import Closure, Obj, Raised, Sym
 from ..loader import AnalysisError, body_of
-from ..schedmodel import Logger, SchedInterp
+from ..schedmodel import Logger, Ref, SchedInterp
 
 LIFE = ("initialize", "connect", "validate", "update", "finalize")
 
@@ -427,7 +427,7 @@ class _ConnInterp(SchedInterp):
 
     def get_attr(self, obj, attr, node, mod):
         if isinstance(obj, Obj) and attr == "connect" and "component" in obj.markers:
-            return Sym("connect", _Ref(obj))
+            return Sym("connect", Ref(obj))
         return super().get_attr(obj, attr, node, mod)
 
     def call_hook(self, fv, args, kwargs, node, mod):
@@ -441,24 +441,9 @@ class _ConnInterp(SchedInterp):
             if o.fields["_i"] > 30:
                 raise AnalysisError("connect loop does not terminate on a stalled script")
             return None
-        if isinstance(fv, Sym) and fv.op == "strmethod" and fv.args[0] == "join":
-            return Sym("join", tuple(args[0]) if isinstance(args[0], (list, tuple)) else args[0])
         if isinstance(fv, Sym) and fv.op == "builtin" and fv.args[0] == "map":
             return list(args[1]) if isinstance(args[1], (list, tuple)) else []
         return super().call_hook(fv, args, kwargs, node, mod)
-
-
-class _Ref:
-    __slots__ = ("obj",)
-
-    def __init__(self, obj):
-        self.obj = obj
-
-    def __eq__(self, o):
-        return isinstance(o, _Ref) and o.obj is self.obj
-
-    def __hash__(self):
-        return id(self.obj)
 
 
 def _names_in(v, acc):
